@@ -96,36 +96,77 @@ def build_model(ms):
     return getattr(gs, ms["cls"])(**kw)
 
 
+# normalizer spec: None | ["LogNormal"] | ["BoxCox", lmbda] | ["BoxCoxShift", lmbda, shift] | ["YeoJohnson", lmbda]
+#                  | ["Modulus", lmbda] | ["Manly", lmbda]      (lmbda != 0, and != 2 for YeoJohnson, in the generated cases)
 def norm_fwd(nz, x):
+    """the documented transformation formulas, written out here independently of gstools.normalizer"""
+    x = np.array(x, dtype=float)
     if nz is None:
-        return np.array(x, dtype=float)
-    if nz[0] == "LogNormal":
+        return x
+    k = nz[0]
+    if k == "LogNormal":
         return np.log(x)
-    lam = nz[1]
-    return (np.power(x, lam) - 1.0) / lam
+    lam = float(nz[1])
+    if k == "BoxCox":
+        return (np.power(x, lam) - 1.0) / lam
+    if k == "BoxCoxShift":
+        return (np.power(x + float(nz[2]), lam) - 1.0) / lam
+    if k == "YeoJohnson":
+        out = np.empty_like(x)
+        p_ = x >= 0
+        out[p_] = (np.power(x[p_] + 1.0, lam) - 1.0) / lam
+        out[~p_] = -(np.power(1.0 - x[~p_], 2.0 - lam) - 1.0) / (2.0 - lam)
+        return out
+    if k == "Modulus":
+        return np.sign(x) * (np.power(np.abs(x) + 1.0, lam) - 1.0) / lam
+    if k == "Manly":
+        return (np.exp(lam * x) - 1.0) / lam
+    raise ValueError(k)
 
 
 def norm_bwd(nz, y):
+    y = np.array(y, dtype=float)
     if nz is None:
-        return np.array(y, dtype=float)
-    if nz[0] == "LogNormal":
-        return np.exp(y)
-    lam = nz[1]
-    return (1.0 + np.asarray(y) * lam) ** (1.0 / lam)
+        return y
+    k = nz[0]
+    with np.errstate(all="ignore"):
+        if k == "LogNormal":
+            return np.exp(y)
+        lam = float(nz[1])
+        if k == "BoxCox":
+            return (1.0 + y * lam) ** (1.0 / lam)
+        if k == "BoxCoxShift":
+            return (1.0 + y * lam) ** (1.0 / lam) - float(nz[2])
+        if k == "YeoJohnson":
+            out = np.empty_like(y)
+            p_ = y >= 0
+            out[p_] = np.power(y[p_] * lam + 1.0, 1.0 / lam) - 1.0
+            out[~p_] = 1.0 - np.power(1.0 - (2.0 - lam) * y[~p_], 1.0 / (2.0 - lam))
+            return out
+        if k == "Modulus":
+            return np.sign(y) * (np.power(np.abs(y) * lam + 1.0, 1.0 / lam) - 1.0)
+        if k == "Manly":
+            return np.log(1.0 + lam * y) / lam
+    raise ValueError(k)
 
 
 def in_range(nz, y):
-    """inside the normalizer's denormalize_range (outside it gstools returns NaN by design, C18)"""
+    """strictly inside the normalizer's denormalize_range (outside it gstools returns NaN by design, C18); the range
+    itself is read from the gstools object (C18 owns it)"""
     y = np.asarray(y, dtype=float)
     if nz is None or nz[0] == "LogNormal":
         return np.ones(y.shape, dtype=bool)
-    lam = nz[1]
-    b = -1.0 / lam
-    return (y > b + 1e-6) if lam > 0 else (y < b - 1e-6)
+    lo, hi = build_normalizer(nz).denormalize_range
+    return (y > lo + 1e-6) & (y < hi - 1e-6)
+
+
+def norm_supported(nz):
+    """normalizers the extracted model evaluates itself; the other classes enter the model as pre-normalised data"""
+    return nz is None or nz[0] in ("LogNormal", "BoxCox")
 
 
 def norm_code(nz):
-    if nz is None:
+    if nz is None or not norm_supported(nz):
         return ("n", 0), 1.0
     if nz[0] == "LogNormal":
         return ("n", 1), 1.0
@@ -136,9 +177,17 @@ def build_normalizer(nz):
     import gstools as gs
     if nz is None:
         return None
-    if nz[0] == "LogNormal":
-        return gs.normalizer.LogNormal()
-    return gs.normalizer.BoxCox(lmbda=nz[1])
+    N = gs.normalizer
+    k = nz[0]
+    if k == "LogNormal":
+        return N.LogNormal()
+    if k == "BoxCoxShift":
+        return N.BoxCoxShift(lmbda=nz[1], shift=nz[2])
+    return getattr(N, k)(lmbda=nz[1])
+
+
+def positive_only(nz):
+    return nz is not None and nz[0] in ("LogNormal", "BoxCox", "BoxCoxShift")
 
 
 def fval(f, pos, n):
@@ -423,6 +472,10 @@ def data_args(kr, spec, Y):
     cmn = np.broadcast_to(np.asarray(kr.cond_mean, dtype=float), (n,)).copy()
     tmn = fval(s_mean(spec), Y, m)
     ttr = fval(spec.get("trend"), Y, m)
+    if not norm_supported(nz):
+        # model side: identity normalizer on data normalised here (own formula); the back transform is applied to the
+        # model's raw output by the caller (model_post)
+        return [code, lam, norm_fwd(nz, np.asarray(kr.cond_val, dtype=float) - ctr), np.zeros(n), cmn, np.zeros(m), np.zeros(m)]
     return [code, lam, np.asarray(kr.cond_val, dtype=float), ctr, cmn, tmn, ttr]
 
 
@@ -513,8 +566,40 @@ def _gen_points(rng, geo, fd, n, lon360=False):
     return [list(map(float, np.round(r, 4))) for r in rows]
 
 
+NORM_CLASSES = ["LogNormal", "BoxCox", "BoxCoxShift", "YeoJohnson", "Modulus", "Manly"]
+
+
+def gen_normalizer(rng, cls=None):
+    cls = cls or str(rng.choice(NORM_CLASSES))
+    if cls == "LogNormal":
+        return ["LogNormal"]
+    if cls == "BoxCox":
+        return ["BoxCox", float(rng.choice([0.5, 2.0, -0.5]))]
+    if cls == "BoxCoxShift":
+        return ["BoxCoxShift", float(rng.choice([0.5, 2.0, -0.5])), float(rng.choice([1.0, 2.5]))]
+    if cls == "YeoJohnson":
+        return ["YeoJohnson", float(rng.choice([0.5, 1.0, 1.5, 2.5, -0.5]))]
+    if cls == "Modulus":
+        return ["Modulus", float(rng.choice([1.0, 0.5, 2.0, -0.5]))]
+    return ["Manly", float(rng.choice([0.5, -0.3, 1.0]))]
+
+
+def gen_norm_data(rng, nz, n):
+    """detrended data inside the normalize range: positive for Log / Box-Cox, above -shift (both signs) for BoxCoxShift,
+    BOTH SIGNS for the real-line classes (Yeo-Johnson, Modulus, Manly), some values close to zero / the range end"""
+    if nz[0] in ("LogNormal", "BoxCox"):
+        return np.exp(0.25 * rng.normal(size=n)) + 0.5
+    if nz[0] == "BoxCoxShift":
+        return np.exp(0.25 * rng.normal(size=n)) + 0.5 - float(nz[2]) * rng.uniform(0.5, 0.95)
+    x = rng.normal(size=n) * 0.8
+    x[0], x[1 % n] = -abs(x[0]) - 0.05, abs(x[1 % n]) + 0.05      # at least one value of each sign
+    if n > 3:
+        x[3] = float(rng.choice([-1e-3, 1e-3]))
+    return x
+
+
 def gen_spec(rng, variant=None, geo=None, dim=None, n=None, m=None, allow_norm=True, tier="quick", classes=None,
-             exact=None, nugget=None, norm_prob=0.35, mean_nonzero=False, geom_mode=None, drift_mode=None, var_scale=None, cell=None):
+             exact=None, nugget=None, norm_prob=0.35, mean_nonzero=False, geom_mode=None, drift_mode=None, var_scale=None, cell=None, norm_class=None):
     """cell = (functional drift kind 0..3: none / "linear" / "quadratic" / callables, number of external drifts 0..2,
     unbiased) for variant "Krige": the base class with its option combinations"""
     variant = variant or str(rng.choice(VARIANTS))
@@ -552,7 +637,7 @@ def gen_spec(rng, variant=None, geo=None, dim=None, n=None, m=None, allow_norm=T
     X = np.asarray(spec["cond_pos"])
     nz = None
     if allow_norm and variant != "Detrended" and rng.random() < norm_prob:
-        nz = ["LogNormal"] if rng.random() < 0.5 else ["BoxCox", float(rng.choice([0.5, 2.0, -0.5]))]
+        nz = gen_normalizer(rng, norm_class)
     if variant in ("Simple", "Krige"):
         spec["mean"] = [None, 0.0, float(np.round(rng.normal(), 3)), "lin"][int(rng.integers(4))]
         if nz is not None:
@@ -565,7 +650,7 @@ def gen_spec(rng, variant=None, geo=None, dim=None, n=None, m=None, allow_norm=T
     spec["normalizer"] = nz
     base = rng.normal(size=n) * math.sqrt(ms["kw"]["var"])
     if nz is not None:
-        base = np.exp(0.25 * base) + 0.5         # positive, inside every normalize range
+        base = gen_norm_data(rng, nz, n)
     spec["cond_val"] = [float("%.10g" % x) for x in base + fval(spec["trend"], X, n)]
     if exact is None:
         exact = bool(rng.random() < 0.3)
@@ -703,6 +788,14 @@ def correspond_case(ctx, drv, spec, stats, what="all"):
     # prepared data
     Y = expand_pos(spec)
     da = data_args(kr, spec, Y)
+    nz0 = s_nz(spec)
+    tmn_true = fval(s_mean(spec), Y, Y.shape[1])
+    ttr_true = fval(spec.get("trend"), Y, Y.shape[1])
+
+    def mpost(arr):
+        """model output -> post-processed value (normalizer classes outside the model: back transform applied here)"""
+        arr = np.asarray(arr, dtype=float)
+        return arr if norm_supported(nz0) else norm_bwd(nz0, arr + tmn_true) + ttr_true
     pad = kr.drift_no + int(kr.unbiased)
     cm = np.asarray(drv.call("krige_cond", da[0], da[1], da[2], da[3], da[4], ("n", pad)), dtype=float)
     ci = np.asarray(kr._krige_cond, dtype=float)
@@ -749,10 +842,10 @@ def correspond_case(ctx, drv, spec, stats, what="all"):
     if not _within(fr_i, f_m, 1e-9 * sf + 1e-300):
         bad("raw field", "raw kriging field differs from the model (same inverse matrix)", impl=fr_i, model=f_m, scale=sf)
     f_c, v_c = drv.call("krige_call", *sa, *ta, Ki, *da, chunk)
-    f_c, v_c = np.asarray(f_c, dtype=float), np.asarray(v_c, dtype=float)
+    f_c, v_c = mpost(f_c), np.asarray(v_c, dtype=float)
     nz = spec.get("normalizer") if spec["variant"] != "Detrended" else None
-    tf = post_tol(nz, fr_i + da[5], 1e-9 * sf) + 1e-9 * np.abs(f_i)
-    inr = in_range(nz, fr_i + da[5])
+    tf = post_tol(nz, fr_i + tmn_true, 1e-9 * sf) + 1e-9 * np.abs(f_i)
+    inr = in_range(nz, fr_i + tmn_true)
     stats["out_of_normalizer_range"] = stats.get("out_of_normalizer_range", 0) + int((~inr).sum())
     tf = np.where(inr, tf, np.inf)
     f_i = np.where(inr, f_i, 0.0)
@@ -768,7 +861,7 @@ def correspond_case(ctx, drv, spec, stats, what="all"):
         bad("krige_var", "kriging variance differs from the model", impl=v_i, model=v_c, scale=se)
     # return_var=False path, only_mean path, get_mean
     f2 = np.asarray(call_krige(kr, spec, return_var=False), dtype=float).reshape(-1)
-    f2m = np.asarray(drv.call("krige_call_field", *sa, *ta, Ki, *da, chunk), dtype=float)
+    f2m = mpost(drv.call("krige_call_field", *sa, *ta, Ki, *da, chunk))
     f2 = np.where(inr, f2, 0.0)
     f2m = np.where(inr, f2m, 0.0)
     if not _within(f2, f2m, tf):
@@ -785,7 +878,12 @@ def correspond_case(ctx, drv, spec, stats, what="all"):
             stats["get_mean_out_of_normalizer_range"] = stats.get("get_mean_out_of_normalizer_range", 0) + 1
             continue
         gi = kr.get_mean(post_process=post)
-        gm = drv.call("get_mean", *sa, Ki, ci, da[0], da[1], float(mval), bool(mean_callable), bool(post))
+        if norm_supported(nz):
+            gm = drv.call("get_mean", *sa, Ki, ci, da[0], da[1], float(mval), bool(mean_callable), bool(post))
+        else:
+            gm = drv.call("get_mean", *sa, Ki, ci, da[0], da[1], float(mval), bool(mean_callable), False)
+            if post:
+                gm = None if (gm is None or kr.get_mean(post_process=True) is None) else float(norm_bwd(nz, np.array([gm + mval]))[0])
         if (gi is None) != (gm is None):
             bad("get_mean", "get_mean None-ness differs (post_process=%s)" % post, impl=gi, model=gm)
         elif gi is not None:
@@ -795,14 +893,14 @@ def correspond_case(ctx, drv, spec, stats, what="all"):
                 bad("get_mean", "get_mean differs (post_process=%s)" % post, impl=float(gi), model=float(gm))
     taom = tgt_args(kr, iso_pos, ed, True)
     fo = np.asarray(call_krige(kr, spec, only_mean=True), dtype=float).reshape(-1)
-    fom = np.asarray(drv.call("krige_call_field", *sa, *taom, Ki, *da, chunk), dtype=float)
+    fom = mpost(drv.call("krige_call_field", *sa, *taom, Ki, *da, chunk))
     kom = np.asarray(kr._get_krige_vecs(iso_pos, (0, m), edp, True), dtype=float)
     sfo, _ = sum_scale(Ki, kom, ci)
     if kr.drift_no == 0:
         sfo = np.full(m, np.abs(ci) @ np.abs(Ki[:, kr.cond_no]) if kr.unbiased else 0.0)
     fo_raw = np.asarray(call_krige(kr, spec, only_mean=True, post_process=False), dtype=float).reshape(-1)
-    inro = in_range(nz, fo_raw + da[5])
-    tfo = post_tol(nz, fo_raw + da[5], 1e-9 * sfo + 1e-300) + 1e-9 * np.abs(fo)
+    inro = in_range(nz, fo_raw + tmn_true)
+    tfo = post_tol(nz, fo_raw + tmn_true, 1e-9 * sfo + 1e-300) + 1e-9 * np.abs(fo)
     tfo = np.where(inro, tfo, np.inf)
     fo, fom = np.where(inro, fo, 0.0), np.where(inro, fom, 0.0)
     if not _within(fo, fom, tfo):
@@ -1158,7 +1256,7 @@ def _new_values(rng, spec, X):
     n = X.shape[1]
     base = rng.normal(size=n) * math.sqrt(spec["model"]["kw"]["var"])
     if spec.get("normalizer") is not None and spec["variant"] != "Detrended":
-        base = np.exp(0.25 * rng.normal(size=n)) + 0.5
+        base = gen_norm_data(rng, spec["normalizer"], n)
     return [float("%.10g" % x) for x in base + fval(spec.get("trend"), X, n)]
 
 
@@ -1335,8 +1433,12 @@ def _run_history(rng, kr, cur, picks, order, steps, geo, v, fd, n, dim, sdim, pl
             cur["mean"] = x
         elif st == "trend":
             vals_ = np.asarray(cur["cond_val"], dtype=float)
-            if s_nz(cur) is not None:
+            if positive_only(s_nz(cur)):
                 x = float(np.round(vals_.min() - rng.uniform(0.6, 1.5), 3))     # keeps val - trend inside the normalize range
+            elif s_nz(cur) is not None:
+                # real-line normalizers (exp / power of the detrended data): keep the detrended data at their magnitude
+                ot = cur.get("trend")
+                x = ot if (ot is None or isinstance(ot, str)) else float(np.round(float(ot) + rng.normal() * 0.3, 3))
             else:
                 x = ([float(np.round(rng.normal(), 3)), "quad", "sin", "lin"] + ([None] if v != "Detrended" else []))
                 x = x[int(rng.integers(len(x)))]
@@ -1345,7 +1447,10 @@ def _run_history(rng, kr, cur, picks, order, steps, geo, v, fd, n, dim, sdim, pl
         elif st == "normalizer":
             vals_ = np.asarray(cur["cond_val"], dtype=float) - fval(cur.get("trend"), X, n)
             ok_ = bool(vals_.min() > 0.3) and not isinstance(s_mean(cur), str)
-            x = [None, ["LogNormal"], ["BoxCox", 0.5]][int(rng.integers(3))] if ok_ else None
+            small_ = bool(np.abs(vals_).max() < 20) and not isinstance(s_mean(cur), str)
+            cands = [None] + ([["LogNormal"], ["BoxCox", 0.5]] if ok_ else []) + (
+                [["Modulus", 1.0], ["YeoJohnson", 0.5], ["Manly", 0.5]] if small_ else [])
+            x = cands[int(rng.integers(len(cands)))]
             kr.normalizer = build_normalizer(x)
             cur["normalizer"] = x
         elif st == "reassign":
@@ -1543,3 +1648,137 @@ def probe_fit_variogram(ctx, rng, stats, geo, geom_mode, variant, via_set_condit
                   "set_condition" if via_set_condition else "constructor", ms["kw"].get("anis"), final["model"]["kw"].get("anis"),
                   np.abs(fr - tb["raw"]).max(), np.abs(v - tb["var"]).max(), tb["cond"]),
               dict(final, start_model=ms, via_set_condition=via_set_condition), "fit_variogram", impl=fr, expected=tb["raw"])
+
+
+# --------------------------------------------------------------------------- the cond_err guard, every route x value class
+
+def probe_cond_err_guard(ctx, drv, rng, spec, stats):
+    """exact=True excludes explicit measurement errors: constructor, set_condition(cond_err=...) and the property setter
+    x value classes (str, float, int 0, 0.0, numpy scalar, 0-d array, one-element list / tuple / array, per-point list /
+    array, zeros, wrong size) x exact x nugget.  The model's set_cond_err says accept (with which error vector) or reject;
+    rejected means ValueError.  Whatever the implementation ACCEPTS with exact=True must be exact at the data."""
+    n = len(spec["cond_val"])
+    vec = [float(x) for x in np.round(rng.uniform(0.05, 0.3, n), 3)]
+    values = [("'nugget'", "nugget"), ("float", 0.1), ("int 0", 0), ("0.0", 0.0), ("numpy float64", np.float64(0.2)),
+              ("0-d array", np.array(0.3)), ("0-d zero array", np.array(0.0)), ("one-element list", [0.15]),
+              ("one-element tuple", (0.15,)), ("one-element zero array", np.zeros(1)), ("float32 one-element array", np.array([0.25], dtype=np.float32)),
+              ("per-point list", vec), ("per-point array", np.array(vec)), ("per-point zeros", np.zeros(n)),
+              ("per-point int zeros", np.zeros(n, dtype=int)), ("wrong size list", vec + [0.1])]
+    for exact in (True, False):
+        for nug in (0.0, 0.3):
+            base = dict(spec, exact=exact, cond_err="nugget", pseudo_inv_type="pinv",
+                        model=dict(spec["model"], kw=dict(spec["model"]["kw"], nugget=nug)))
+            for route in ("constructor", "set_condition", "setter"):
+                for name, val in values:
+                    isnug = isinstance(val, str)
+                    arr = np.zeros(1) if isnug else np.asarray(val, dtype=float).reshape(-1)
+                    want = drv.call("set_cond_err", bool(exact), ("n", n), float(nug), bool(isnug), bool(arr.size == 1), arr)
+                    ctx.count(None, hist=dict(probe="cond_err_guard", guard_route=route, guard_value=name))
+                    kr, err = None, None
+                    try:
+                        if route == "constructor":
+                            s1 = dict(base)
+                            kw = krige_kwargs(s1)
+                            kw["cond_err"] = val
+                            kr = _construct(s1, kw)
+                        else:
+                            kr = build_krige(base)
+                            if route == "set_condition":
+                                kr.set_condition(cond_err=val)
+                            else:
+                                kr.cond_err = val
+                                kr.set_condition()
+                    except ValueError as e:
+                        err = e
+                    case = dict(base, cond_err_given=name, cond_err_value=(val if isnug else arr.tolist()), route=route)
+                    if want is None and err is None:
+                        _viol(ctx, "cond_err_guard", "cond_err=%s (%s) is accepted via the %s with exact=%s, nugget=%g; the documented "
+                              "behaviour (and the model) is ValueError" % (name, arr.tolist() if not isnug else val, route, exact, nug),
+                              case, "guard:accepted")
+                    elif want is not None and err is not None:
+                        _viol(ctx, "cond_err_guard", "cond_err=%s via the %s with exact=%s raises %r but is a valid setting" % (name, route, exact, err),
+                              case, "guard:rejected")
+                    elif want is not None:
+                        got = np.broadcast_to(np.asarray(kr.cond_err, dtype=float), (n,))
+                        if not C.bit_equal(got, np.asarray(want, dtype=float)):
+                            _viol(ctx, "cond_err_guard", "cond_err=%s via the %s: stored measurement errors differ from the model" % (name, route),
+                                  case, "guard:value", impl=got, model=np.asarray(want))
+                    # whatever is accepted with exact=True must reproduce the data with zero variance
+                    if kr is not None and err is None and exact:
+                        acc = dict(base, cond_err=("nugget" if isnug else (float(arr[0]) if arr.size == 1 else arr.tolist())))
+                        probe_exact_at_data(ctx, acc, stats, kr=kr, label="exact_when_accepted",
+                                            extra=dict(route=route, cond_err_given=name))
+
+
+def _construct(spec, kw):
+    import gstools as gs
+    model = build_model(spec["model"])
+    cp, cv = np.asarray(spec["cond_pos"], dtype=float), np.asarray(spec["cond_val"], dtype=float)
+    v = spec["variant"]
+    cls = getattr(gs.krige, v)
+    if v == "ExtDrift":
+        return cls(model, cp, cv, ext_drift_at(spec, cp), **kw)
+    if v == "Detrended":
+        kw = dict(kw)
+        tr = kw.pop("trend")
+        return cls(model, cp, cv, tr, **kw)
+    if v == "Krige":
+        return cls(model, cp, cv, ext_drift=ext_drift_at(spec, cp), **kw)
+    return cls(model, cp, cv, **kw)
+
+
+# --------------------------------------------------------------------------- zero-lag window at large coordinates
+
+def gen_utm(rng, variant, n=8):
+    """rotated + anisotropic model, coordinates of UTM magnitude (5e5, 5.6e6) with a spread of ~1 km, nugget > 0, exact"""
+    kw = dict(dim=2, var=float(np.round(rng.uniform(0.5, 2.0), 3)), len_scale=float(np.round(rng.uniform(200, 600), 1)),
+              nugget=float(np.round(rng.uniform(0.2, 0.9), 3)), anis=[float(np.round(rng.uniform(0.3, 0.8), 3))],
+              angles=[float(np.round(rng.uniform(0.2, 2.9), 3))])
+    org = np.array([[float(rng.choice([4.1e5, 5.0e5, 6.8e5]))], [float(rng.choice([5.6e6, 1.2e6, 9.3e6]))]])
+    X = org + rng.uniform(0, 1500, size=(2, n))
+    spec = dict(variant=variant, model=dict(cls=str(rng.choice(["Exponential", "Gaussian", "Spherical", "Matern"])), kw=kw), geo="plain",
+                cond_pos=[[float("%.12g" % x) for x in r] for r in X], cond_val=[float("%.8g" % x) for x in rng.normal(size=n)],
+                trend=None, normalizer=None, exact=True, cond_err="nugget", pseudo_inv=True, pseudo_inv_type="pinv",
+                mesh_type="unstructured", chunk_size=None)
+    if spec["model"]["cls"] == "Matern":
+        kw["nu"] = 1.5
+    if variant == "Simple":
+        spec["mean"] = 0.2
+    if variant == "Universal":
+        spec["drift"] = "linear"
+    spec["pos"] = [r[:3] for r in spec["cond_pos"]]
+    return spec
+
+
+def probe_single_targets(ctx, drv, spec, stats):
+    """exact kriging evaluated at the conditioning points ONE POINT PER CALL (1-column target arrays), in pairs and all at
+    once: lag 0 must be recognised (|r| <= 1e-8, the documented numpy.isclose window) although the isometrized coordinates
+    of a single column and of many columns differ by rounding at large coordinate magnitudes"""
+    X = np.asarray(spec["cond_pos"], dtype=float)
+    val = np.asarray(spec["cond_val"], dtype=float)
+    n = X.shape[1]
+    tb = textbook(dict(spec, pos=spec["cond_pos"]))
+    if tb.get("singular") or tb["cond"] > COND_MAX:
+        stats["excluded_singular"] = stats.get("excluded_singular", 0) + 1
+        return
+    kr = build_krige(spec)
+    tol = 1e3 * tb["cond"] * EPS * (np.abs(tb["d"]).max() + 1e-300) * tb["N"] + 1e-9 * np.abs(val) + 1e-12
+    tv = 1e3 * tb["cond"] * EPS * np.abs(tb["K"]).max() * tb["N"] + 1e-12 * tb["sill"]
+    sets = [[i] for i in range(n)] + [[i, (i + 1) % n] for i in range(0, n, 3)] + [list(range(n))]
+    worst = 0.0
+    for idx in sets:
+        f, v = kr(X[:, idx], return_var=True)
+        ctx.count(None, hist=dict(probe="single_targets", n_targets=len(idx)))
+        f, v = np.asarray(f, dtype=float).reshape(-1), np.asarray(v, dtype=float).reshape(-1)
+        dev = np.abs(f - val[idx])
+        worst = max(worst, float(dev.max()))
+        if not (np.all(dev <= tol[idx]) and np.all(np.abs(v) <= tv)):
+            i_, d_, t_ = _worst(dev, tol[idx])
+            _viol(ctx, "single_targets", "exact kriging called on %d target point(s) that ARE conditioning points (coordinates ~%.3g) misses "
+                  "the data (point %d: dev %.3g, tol %.3g; variance %.3g, tol %.3g)" % (len(idx), np.abs(X).max(), idx[i_], d_, t_,
+                                                                                        float(np.abs(v).max()), tv),
+                  dict(spec, pos=[[float(x) for x in r] for r in X[:, idx]]), "exact:single_target", impl=f, expected=val[idx], variance=v)
+            return
+    if drv is not None:    # model side: the right-hand side of a one-column call (cov_nugget window) and the final values
+        correspond_case(ctx, drv, dict(spec, pos=[[float(x)] for x in X[:, 0]]), stats)
+        correspond_case(ctx, drv, dict(spec, pos=[[float(x) for x in r] for r in X]), stats)
